@@ -78,7 +78,7 @@ def gen_roundtrip_cases(rng, n):
         legacy = None
         if kind == "mps" and rng.random() < 0.2:
             legacy = rng.choice(["0.1", "0.2", "0.3"])
-        cases.append({"id": i, "kind": kind, "nq": nq, "nsites": nsites, "cplx": rng.random() < 0.5,
+        cases.append({"id": i, "kind": kind, "nq": nq, "nsites": nsites, "cplx": rng.random() < 0.5, "default_coeff": rng.random() < 0.15,
                       "m_max": rng.choice([4, 5, 6, 8]) if nq == 2 else rng.choice([1, 2, 3, 5, 8]),
                       "gauge": g, "coeff": [round(rng.uniform(-2, 2), 3) or 1.0, round(rng.uniform(-2, 2), 3)],
                       "spill": kind != "ttns" and rng.random() < 0.2, "tree": rng.choice(["linear", "binary", "ternary"]),
@@ -291,6 +291,24 @@ def run(ctx):
     shards = [cases[i::NSHARD] for i in range(NSHARD)]
     rres = via_file(ctx, "c14_roundtrip.py", [{"cases": s_} for s_ in shards], 1400, NSHARD)
     rt_bad = []
+    seq_steps = 0
+    type_diffs = {}
+    container_bad = []
+    # python mirror of Model/DumpProto.v: scalar_container / loaded_containers, from the generated load maps
+    CONT = {"CInt": {"pyscalar"}, "CBool": {"pyscalar"}, "CItem0": {"pyscalar"}, "CLast": {"pyscalar", "npscalar"},
+            "CNone": {"ndarray", "ndarray0d"}, "CAstypeInt": {"ndarray", "ndarray0d"}, "CAstypeIntTolist": {"list"}}
+    predicted_containers = {}
+    if kinfo is not None:
+        for nm_, fm_ in kinfo["fieldmaps"].items():
+            pc = {}
+            for e_ in fm_["load"] or []:
+                if e_[0] == "LScalar":
+                    pc[e_[1]] = CONT[e_[3]]
+                elif e_[0] == "LLabelList":
+                    pc["qn"] = {"objarray"}
+                elif e_[0] == "LLabelFam" and nm_ != "ttns":
+                    pc["qn"] = {"list"}
+            predicted_containers[nm_] = pc
     rt_n = rt_nontriv = 0
     rt_hist = {}
     mpo_soft = {}
@@ -312,6 +330,18 @@ def run(ctx):
                 mpo_soft[s_[:90]] = mpo_soft.get(s_[:90], 0) + 1
             for s_ in x["info"].get("skipped_ops", []):
                 skipped_ops[s_] = skipped_ops.get(s_, 0) + 1
+            seq_steps += x["info"].get("sequence_steps", 0)
+            tl, to_ = x["info"].get("types_loaded"), x["info"].get("types_original")
+            if tl and to_:
+                for f_ in tl:
+                    if tl[f_] != to_.get(f_):
+                        kk = "%s.%s: %s -> %s" % (c["kind"], f_, to_.get(f_), tl[f_])
+                        type_diffs[kk] = type_diffs.get(kk, 0) + 1
+                fmk = {"mps": "mps", "mpdm": "mps", "ttns": "ttns", "mpo": "mpo"}[c["kind"]]
+                for f_, want in predicted_containers.get(fmk, {}).items():
+                    got = (tl.get(f_) or "").split(":")[0]
+                    if got and got not in want:
+                        container_bad.append({"kind": c["kind"], "field": f_, "generated_fact": sorted(want), "observed": got, "legacy": c.get("legacy")})
             if not x["ok"]:
                 if x["mismatch"] and x["mismatch"][0].startswith("case raised FloatingPointError"):
                     rt_hist["generator rejected (Mps.random 0/0)"] = rt_hist.get("generator rejected (Mps.random 0/0)", 0) + 1
@@ -319,6 +349,8 @@ def run(ctx):
                 rt_bad.append({"case": c, "mismatch": x["mismatch"], "info": x["info"]})
             elif len(samples) < 3:
                 samples.append({"roundtrip_case": c, "info": x["info"]})
+    if type_diffs:
+        ctx.notes.append("container kinds that differ between the dumped and the reloaded object (values equal; recorded because later behaviour can depend on them): %s" % json.dumps(type_diffs))
     if mpo_soft:
         ctx.notes.append("Mpo (not an object kind of the property text): reloaded operator's fields match but later operations fail: %s" % json.dumps(mpo_soft))
     if skipped_ops:
@@ -410,6 +442,10 @@ def run(ctx):
     elif keys_bad or fields_bad or ktx_err:
         ctx.violation("state-dump-keys", "theorem C14_keys_cover / C14_fields_roundtrip / C14_side_file_current_after_return" + ("; translator " + "; ".join(ktx_err) if ktx_err else ""),
                       {"kinds": keys_bad, "field_kinds": fields_bad, "translator": ktx_err, "coq_log_tail": log[-800:] if isinstance(log, str) else ""}, found=False)
+    container_bad = [b for b in container_bad if not b.get("legacy")]
+    if container_bad:
+        ctx.violation("state-container-kinds", "correspondence: container kind of a reloaded field vs the generated fact loaded_containers (Gen/DumpKeys.v load maps)",
+                      {"mismatches": container_bad[:6], "n": len(container_bad)}, found=False)
     if sp_bad:
         first = next((b for b in sp_bad if b.get("what") == "spill state differs"), None)
         repro = None
@@ -423,7 +459,7 @@ def run(ctx):
         ctx.violation("spill-correspondence", "correspondence spill model (C14_spill_* are about Model/DumpProto.v: setitem/getitem) vs MatrixProduct.__setitem__/__getitem__/_array2mt",
                       {"mismatches": sp_bad[:5], "n": len(sp_bad)}, found=repro is not None, repro=repro)
     dist = {"fault_histories": {k: len(v) for k, v in fault_cases.items()}, "process_end_states_compared": n_cmp,
-            "processes_killed": n_killed, "spill_store_steps_compared": sp_n, "killed_leaving_an_unloadable_file": n_inside, "roundtrip": rt_hist}
+            "processes_killed": n_killed, "spill_store_steps_compared": sp_n, "roundtrip_sequence_steps_run_on_both_objects": seq_steps, "killed_leaving_an_unloadable_file": n_inside, "roundtrip": rt_hist}
     return {"evaluations": n_cmp + rt_n + sp_n,   # unit: process end states compared + round-trip cases + spill store steps
             "distinct_nontrivial": n_killed + rt_nontriv,
             "rule": "fault injection: every process-level history with every crash point of every step (crash points = action counts the real code produced; np.savez counts 2), "
